@@ -1,0 +1,8 @@
+//go:build !verif
+
+// Package verifhook marks the file-system write boundaries of the goat commands for
+// verification builds (build tag verif). Without the tag every function is a no-op.
+package verifhook
+
+// Boundary is called immediately before a file or directory is created, written or removed.
+func Boundary(op string, path string) {}
